@@ -5,6 +5,8 @@
 import Pk.Driver.C17
 import Pk.Driver.Mgr
 import Pk.Driver.C15
+import Pk.Driver.C03
+import Pk.Driver.C14
 import Pk.Driver.C20
 import Pk.Driver.C02
 import Pk.Driver.C04
@@ -33,6 +35,8 @@ def main (args : List String) : IO UInt32 := do
   | ["c02"] => Pk.Driver.C02.main; return 0
   | ["c04"] => Pk.Driver.C04.main; return 0
   | ["c20"] => Pk.Driver.C20.main; return 0
+  | ["c03"] => Pk.Driver.C03.main; return 0
+  | ["c14"] => Pk.Driver.C14.main; return 0
   | ["c15"] => Pk.Driver.C15.main; return 0
   | "mgr" :: convs => Pk.Driver.Mgr.main convs; return 0
   | _ =>
